@@ -706,6 +706,10 @@ def _apply(m, op):
             raise ModelReject("container shape")
         if any(m.is_derived(c) for c in ch):
             raise ModelReject("container holds a derived member (excluded by the property)")
+        if any(c == k["source"] for k in m.knobs.values() for c in ch):
+            # the knob is booked under the element, not under the container: whether replacing the container "assigns" the
+            # element is not something the statements say
+            raise ModelReject("container holds the source of a linear knob")
         for c, v in zip(ch, values):
             m.val[c] = v
         return m.pfx(path)
@@ -751,8 +755,8 @@ def _apply(m, op):
         _, name, source, weights, targets = op[:5]
         if name in m.ftasks or name in m.knobs:
             raise ModelReject("task name in use")
-        if source not in m.spec.leaf_type or len(source) != 2 or source in m.ft_target or source in m.kn_target:
-            raise ModelReject("knob source must be a depth-1 leaf")
+        if source not in m.spec.leaf_type or source in m.ft_target or source in m.kn_target:
+            raise ModelReject("knob source must be a leaf nothing else than an expression writes")
         if not targets or len(weights) != len(targets):
             raise ModelReject("knob shape")
         ksrc = {k["source"] for k in m.knobs.values()}
